@@ -208,11 +208,16 @@ func (e *Env) ident(name string) (Value, error) {
 	case "MaxInt64":
 		return intV("9223372036854775807"), nil
 	}
+	// Go local / parameter by name (not visible from a callee's contract)
+	fr := e.fr
 	if e.callee {
+		if fr.pkg != nil {
+			if p := e.importedPkg(name); p != nil {
+				return pkgRef{p}, nil
+			}
+		}
 		return nil, fmt.Errorf("unknown name %s in callee contract", name)
 	}
-	// Go local / parameter by name
-	fr := e.fr
 	if a := fr.lookupLocal(name, e.pos); a != nil {
 		e.nameSens = append(e.nameSens, name)
 		if !a.Heap {
@@ -222,12 +227,13 @@ func (e *Env) ident(name string) (Value, error) {
 					return v, nil
 				}
 			}
-			return nil, fmt.Errorf("local %s is not live here", name)
+			// not (yet) live on this path: its value is arbitrary
+			return e.x.smt.freshValue(a.Type().(*types.Pointer).Elem(), "dead."+name), nil
 		}
 		if p, ok := fr.reg[a].(PtrV); ok {
 			return e.x.load(e.st, p), nil
 		}
-		return nil, fmt.Errorf("local %s is not live here", name)
+		return e.x.smt.freshValue(a.Type().(*types.Pointer).Elem(), "dead."+name), nil
 	}
 	if v, ok := fr.params[name]; ok {
 		return v, nil
@@ -457,7 +463,20 @@ func (e *Env) index(ex EIndex) (Value, error) {
 	case MapV:
 		mt := b.Typ.Underlying().(*types.Map)
 		k := e.x.keyTerm(mt.Key(), e.coerceKey(iv, mt.Key()))
-		return e.x.mapValAt(e.st, b, k), nil
+		has := And(Not(Eq(b.Ref, NilRef)), Select(e.x.mapDom(e.st, b), k))
+		save := e.x.smt
+		_ = save
+		if e.inQuant > 0 {
+			// no definitions may be introduced under a binder: build the ite leaf-wise inline
+			va, vz := flatten(e.x.mapValAt(e.st, b, k)), flatten(e.x.smt.zeroValue(mt.Elem()))
+			out := make([]Term, len(va))
+			for i := range va {
+				out[i] = Ite(has, va[i], vz[i])
+			}
+			v, _ := unflatten(mt.Elem(), out)
+			return v, nil
+		}
+		return e.x.smt.iteValue(has, e.x.mapValAt(e.st, b, k), e.x.smt.zeroValue(mt.Elem())), nil
 	case ArrayV:
 		k := flatten(iv)[0]
 		if b.Key != nil {
@@ -806,6 +825,22 @@ func (e *Env) call(ex ECall) (Value, error) {
 		return nil, fmt.Errorf("type %s has no method %s", typeName(t), sel.Name)
 	}
 	fn := msel.Obj().(*types.Func)
+	// a method promoted through embedded fields is called on the embedded field
+	for _, fi := range msel.Index()[:len(msel.Index())-1] {
+		switch rv := recv.(type) {
+		case PtrV:
+			fa := e.x.fieldAddr(rv, fi)
+			if _, isPtr := fa.Elem.Underlying().(*types.Pointer); isPtr {
+				recv = e.x.load(e.st, fa)
+			} else {
+				recv = fa
+			}
+		case StructV:
+			recv = rv.F[fi]
+		default:
+			return nil, fmt.Errorf("cannot reach embedded receiver of %s", sel.Name)
+		}
+	}
 	rt := fn.Type().(*types.Signature).Recv().Type()
 	key := "(" + typeKey(rt) + ")." + sel.Name
 	full := "(" + types.TypeString(rt, nil) + ")." + sel.Name
@@ -880,10 +915,7 @@ func (e *Env) specCall(spec *FuncSpec, args []Value, rt types.Type) (Value, erro
 			env := x.newEnv(e.fr, e.st)
 			env.callee = true
 			env.inQuant = e.inQuant
-			env.vars["recv"] = args[0]
-			for i, a := range args[1:] {
-				env.vars[fmt.Sprintf("a%d", i)] = a
-			}
+			bindSpecArgs(env, spec, args)
 			for _, me := range spec.MFArgs {
 				v, err := env.eval(me)
 				if err != nil {
@@ -894,21 +926,7 @@ func (e *Env) specCall(spec *FuncSpec, args []Value, rt types.Type) (Value, erro
 		}
 		return x.mfRead(e.st, spec.MF, ref, idx, rt), nil
 	case "pure":
-		var argTerms []Term
-		var argSorts []string
-		for _, a := range args {
-			if pv, ok := a.(PtrV); ok {
-				argTerms = append(argTerms, pv.Ref)
-				argSorts = append(argSorts, SRef)
-				continue
-			}
-			ls := flatten(a)
-			sh := leafShapeAny(valueType(a))
-			for i := range ls {
-				argTerms = append(argTerms, ls[i])
-				argSorts = append(argSorts, sh[i].sort)
-			}
-		}
+		argTerms, argSorts := pureArgs(args)
 		sh := leafShapeAny(rt)
 		ts := make([]Term, len(sh))
 		for i, l := range sh {
@@ -919,12 +937,7 @@ func (e *Env) specCall(spec *FuncSpec, args []Value, rt types.Type) (Value, erro
 		if len(spec.Ensures) > 0 && e.inQuant == 0 {
 			env := x.newEnv(e.fr, e.st)
 			env.callee = true
-			if len(args) > 0 {
-				env.vars["recv"] = args[0]
-			}
-			for i, a := range args {
-				env.vars[fmt.Sprintf("a%d", i)] = a
-			}
+			bindSpecArgs(env, spec, args)
 			bindResults(env, v)
 			for _, en := range spec.Ensures {
 				if t, err := env.evalBool(en.E); err == nil {
@@ -935,6 +948,22 @@ func (e *Env) specCall(spec *FuncSpec, args []Value, rt types.Type) (Value, erro
 		return v, nil
 	}
 	return nil, fmt.Errorf("%s is not pure (kind %q); it cannot be used in a specification", spec.Key, spec.Kind)
+}
+
+// bindSpecArgs names the arguments of a contract application the way applySpec does: methods
+// (keys starting with "(" or "*.") get recv, a0, a1, ...; functions get a0, a1, ...
+func bindSpecArgs(env *Env, spec *FuncSpec, args []Value) {
+	isMethod := strings.HasPrefix(spec.Key, "(") || strings.HasPrefix(spec.Key, "*.")
+	if len(args) > 0 {
+		env.vars["recv"] = args[0]
+	}
+	off := 0
+	if isMethod {
+		off = 1
+	}
+	for i := 0; i+off < len(args); i++ {
+		env.vars[fmt.Sprintf("a%d", i)] = args[i+off]
+	}
 }
 
 // evalOld evaluates in the entry state, where only parameters exist.
